@@ -61,7 +61,9 @@ func scenC07(c *ctx) {
 		bad("midpad", s)
 	}
 	// non-ASCII letters whose case mapping lands in the alphabet (U+017F, U+0131, U+212A), digits, look-alikes
-	for _, s := range []string{"AſAAAAAA", "AAAAſAAA", "MZXW6YTſA", "AıAAAAAA", "AKAAAAAA", "ſAAAAAAA"[0:0] + "AAſA", "AAAAéAAA", "AAAA\xffAAA", "AΑAAAAAA", "MZXW​6YTB", "M ZXW6YTB"} {
+	// byte counts chosen so that the text is a well-formed base32 length AFTER a Unicode case mapping has
+	// shortened it (8 two-byte letters + 8 ASCII letters = 24 bytes, 16 characters)
+	for _, s := range []string{"AAAAſſſſſſſſAAAA", "MZXWııııııııMZXW", "AAAAſſſſſſſſAAAA========", "aaaaſſſſſſſſaaaa", "A" + strings.Repeat("ſ", 8) + "AAAAAAA", "AſAAAAAA", "AAAAſAAA", "MZXW6YTſA", "AıAAAAAA", "AKAAAAAA", "ſAAAAAAA"[0:0] + "AAſA", "AAAAéAAA", "AAAA\xffAAA", "AΑAAAAAA", "MZXW​6YTB", "M ZXW6YTB"} {
 		bad("nonascii", s)
 	}
 	for _, s := range []string{"0AAAAAAA", "1AAAAAAA", "AAAA8AAA", "AAAAAAA9", "AAAA AAA", "AAAA\tAAA", "AAAA\nAAAA", "AAAA-AAAA"} {
